@@ -164,8 +164,9 @@ def unit_handle_reports(eng, exc, errcond, handler):
     return verify(eng, name, run, post, func="reports.handle_reports.__exit__")
 
 
-def unit_emit_report(eng, prio):
-    """emit_report: error/critical latch is_error_condition on the top handler after calling it; critical raises UnrecoverableError"""
+def unit_emit_report(eng, prio, latched=False):
+    """emit_report: error/critical latch is_error_condition on the top handler after calling it; critical raises UnrecoverableError;
+    the latch is monotone: whatever is reported after an error, it stays set (latched = its value before the call)"""
     def run(eng):
         eng.I = {}
         rmod = eng.load_module("reports")
@@ -175,6 +176,8 @@ def unit_emit_report(eng, prio):
         obj = eng.call(hr, [h], {})
         eng.call(eng.getattr(obj, "__enter__"), [], {})
         eng.I.update(obj=obj, calls=calls)
+        if latched:
+            obj.attrs["is_error_condition"] = True
         pr = eng.resolve_global(rmod, prio)
         return eng.call(eng.resolve_global(rmod, "emit_report"), [pr, "some-id", (1, 2, "text")], {})
 
@@ -182,9 +185,10 @@ def unit_emit_report(eng, prio):
         kind, val = o
         obj, calls = eng.I["obj"], eng.I["calls"]
         eng.prove("handler-called-exactly-once-with-the-report", len(calls) == 1 and calls[0][1] == "some-id")
-        eng.prove("error-and-critical-set-the-latch-warnings-do-not", obj.attrs["is_error_condition"] is (prio != "warning"))
+        eng.prove("latch-after==latch-before-or-error-severity(set by error and critical, never cleared, never set by a warning)",
+                  obj.attrs["is_error_condition"] is (latched or prio != "warning"))
         eng.prove("critical-aborts-with-UnrecoverableError-others-return", (kind == "raise" and val.cls == "UnrecoverableError") if prio == "critical" else kind == "return")
-    return verify(eng, "emit_report[%s]" % prio, run, post, func="reports.emit_report")
+    return verify(eng, "emit_report[%s,latched=%s]" % (prio, latched), run, post, func="reports.emit_report")
 
 
 # ------------------------------------------------------------------ rac: histories
@@ -253,7 +257,8 @@ def units(tier):
             for h in ("callable", "filter"):
                 us.append(("handle_reports[%s,%s,%s]" % (exc, errcond, h), "unit_handle_reports", dict(exc=exc, errcond=errcond, handler=h)))
     for p in ("error", "critical", "warning"):
-        us.append(("emit_report[%s]" % p, "unit_emit_report", dict(prio=p)))
+        for latched in (False, True):
+            us.append(("emit_report[%s,%s]" % (p, latched), "unit_emit_report", dict(prio=p, latched=latched)))
     return us
 
 
@@ -268,6 +273,9 @@ def canary(eng):
 
 def replay(o, tree):
     """a frame/balance failure is replayed as a history experiment on the real code: probe after random histories vs the first probe"""
+    if o.get("unit", "").startswith("emit_report["):
+        from contracts import c07
+        return c07.replay_emit_report(tree)
     os.environ["PDPY11_SRC"] = tree
     r = unit_rac(None, tier="thorough")
     ob_ = r["obligations"][0]
